@@ -178,3 +178,72 @@ def enum_members(P, cls):
             out.append((st.targets[0].id, val))
             nxt = int(val) + 1 if isinstance(val, (int, float)) else nxt + 1
     return out
+
+
+def covered(P, allowed):
+    """method names that are in `allowed`, or private helpers (not entry points: not public, never referenced as a value, never called on
+    a foreign receiver) every one of whose callers -- through self./super()/Class. calls anywhere in the package -- is itself covered.
+    Used by who-may-write rules so that extracting a helper from an allowed method does not change the verdict."""
+    from .entries import _scan
+    value_refs, foreign_calls = _scan(P)
+    callers = {}
+    foreign = set()
+    for m, c, f in functions(P):
+        for n in ast.walk(f):
+            if isinstance(n, ast.Call) and isinstance(n.func, ast.Attribute):
+                v = n.func.value
+                is_self = isinstance(v, ast.Name) and (v.id == 'self' or (P.resolve_name(m, v.id) or (None,))[0] == 'class')
+                is_super = isinstance(v, ast.Call) and isinstance(v.func, ast.Name) and v.func.id == 'super'
+                if is_self or is_super:
+                    callers.setdefault(n.func.attr, set()).add(f.name)
+                else:
+                    foreign.add(n.func.attr)
+    out = set(allowed)
+    changed = True
+    while changed:
+        changed = False
+        for h, cs in callers.items():
+            if h in out or not h.startswith('_') or h.startswith('__') or h in value_refs or h in foreign:
+                continue
+            if cs and all(c_ in out or c_ == h for c_ in cs) and any(c_ != h for c_ in cs):
+                # a foreign call of the same method name elsewhere makes it an entry point -- unless the receiver is a class of the package (static call)
+                out.add(h)
+                changed = True
+    return out
+
+
+def readonly_param(P, cls, callee_text, index):
+    """True if `callee_text` (e.g. 'self._select', 'Environment._select') names a method of `cls` whose parameter receiving the
+    positional argument `index` is only read (iterated, measured, tested, indexed) -- so passing a list to it neither mutates the list nor
+    lets it escape"""
+    parts = callee_text.split('.')
+    if len(parts) != 2 or cls is None:
+        return False
+    if parts[0] != 'self' and parts[0] != cls.name:
+        return False
+    hit = P.lookup(cls, parts[1])
+    if not hit or hit[1] != 'method':
+        return False
+    fn = hit[2]
+    params = [a.arg for a in fn.args.args]
+    if parts[1] not in hit[0].static and params and params[0] == 'self':
+        params = params[1:]
+    if index >= len(params):
+        return False
+    pname = params[index]
+    par = {}
+    for n in ast.walk(fn):
+        for ch in ast.iter_child_nodes(n):
+            par[ch] = n
+    for n in ast.walk(fn):
+        if isinstance(n, ast.Name) and n.id == pname:
+            if not isinstance(n.ctx, ast.Load):
+                return False
+            p = par.get(n)
+            ok = (isinstance(p, (ast.comprehension, ast.For)) and p.iter is n) or \
+                 (isinstance(p, ast.Call) and isinstance(p.func, ast.Name) and p.func.id in ('len', 'list', 'tuple', 'sorted', 'iter', 'enumerate', 'reversed', 'any', 'all') and n in p.args) or \
+                 (isinstance(p, ast.Compare)) or (isinstance(p, ast.Subscript) and p.value is n and isinstance(p.ctx, ast.Load)) or \
+                 (isinstance(p, ast.Attribute) and p.attr == 'copy')
+            if not ok:
+                return False
+    return True
